@@ -26,6 +26,24 @@ type message struct {
 	flags map[imap.Flag]struct{}
 }
 
+// messageCopy is a snapshot of a message, taken with the mailbox lock held.
+type messageCopy struct {
+	uid     imap.UID
+	buf     []byte
+	options imap.AppendOptions
+}
+
+func (msg *message) copy() messageCopy {
+	return messageCopy{
+		uid: msg.uid,
+		buf: msg.buf,
+		options: imap.AppendOptions{
+			Time:  msg.t,
+			Flags: msg.flagList(),
+		},
+	}
+}
+
 func (msg *message) fetch(w *imapserver.FetchResponseWriter, options *imap.FetchOptions) error {
 	w.WriteUID(msg.uid)
 
